@@ -81,4 +81,14 @@ theorem isEmpty_sortedSet (l : List Int) : (sortedSet l).isEmpty = l.isEmpty :=
 theorem truthy_eq_not_isEmpty {α} (l : List α) : truthy (some l) = !l.isEmpty := by
   cases l <;> rfl
 
+theorem divmod_spec (a b : Int) (hb : 0 < b) :
+    (Py.divmod a b).1 * b + (Py.divmod a b).2 = a ∧ 0 ≤ (Py.divmod a b).2 ∧ (Py.divmod a b).2 < b := by
+  unfold Py.divmod
+  dsimp only
+  rw [Py.fdiv_pos a hb, Py.fmod_pos a hb]
+  have h1 := Int.ediv_mul_add_emod a b
+  have h2 := Int.emod_nonneg a (by omega : b ≠ 0)
+  have h3 := Int.emod_lt_of_pos a hb
+  exact ⟨h1, h2, h3⟩
+
 end RRule
